@@ -582,6 +582,47 @@ def r5_attack_map(ctx):
     ctx.ob('C01.R6-own-piece-exclusion', name, 'leaper targets = table & !own occupancy', okx, expected='get_precomputed_targets(sq, piece) & !occupied(own)')
 
 
+def r4b_pawn_captures(ctx):
+    """pawn capture targets = attack targets masked with the OPPONENT's occupancy; only non-empty intersections are kept"""
+    rule = 'C01.R4-pawn-captures'
+    facts = ctx.facts
+    name = MGM + 'generate_pawn_moves'
+    opaque = {TGT + 'generate_pawn_move_targets', TGT + 'generate_pawn_attack_targets', MGM + 'expand_piece_targets', MGM + 'generate_en_passant_moves'}
+    outs = Engine(facts, opaque=opaque, readonly={BOARD + '::pieces', PS + '::occupied', CHESSMOVE + '::to_square', CHESSMOVE + '::from_square', CHESSMOVE + '::captures'},
+                  max_paths=4000).run(name)
+    ctx.touch(name)
+    caps = None
+    for o in outs:
+        for e in o.events:
+            if e[0] == 'closure' and e[1] == name + '::{closure#0}':
+                caps = e[2]
+    ok_mask = False
+    detail = None
+    if caps:
+        s = [show(c) for c in caps]
+        detail = s
+        ok_mask = any('occupied' in x and 'pieces' in x and 'opposite(arg3)' in x for x in s)
+    ctx.ob(rule, name, 'capture mask = occupancy of the opponent (color.opposite())', ok_mask, found=detail, expected='board.pieces(color.opposite()).occupied()',
+           why='masking with the own occupancy would let pawns capture their own pieces and never the enemy\'s')
+    clo = name + '::{closure#0}'
+    couts = Engine(facts).run(clo)
+    ctx.touch(clo)
+    ok = False
+    for o in couts:
+        pushes = [e for e in o.events if e[0] == 'call' and e[1].endswith('::push')]
+        for e in pushes:
+            tup = e[2][1]
+            tgt = tup[4][1][1]
+            core = tgt[4][0][1] if tgt[0] == 'agg' else tgt
+            cond_ok = any(a == core and not is_false(v) for a, v in o.conds)
+            ok = core[0] == 'bin' and core[1] == 'BitAnd' and 'upvar0' in show(core) and 'arg2.1' in show(core) and cond_ok and 'arg2.0' in show(tup[4][0][1])
+    ctx.ob(rule, clo, 'kept target = attack squares & mask, only when non-empty, for the same pawn', ok, expected='if target.overlaps(mask) { push((pawn, target & mask)) }')
+    # the attack targets fed to the closure are those of the same colour
+    gen = [e for o in outs for e in o.events if e[0] == 'call' and e[1] == TGT + 'generate_pawn_attack_targets']
+    okc = bool(gen) and all(e[2][2] == ('p', 3) and e[2][1] == ('ref', ('der', ('p', 2))) for e in gen)
+    ctx.ob(rule, name, 'attack targets generated for the mover on this board', okc, expected='generate_pawn_attack_targets(&mut attack_targets, board, color)', nontrivial=False)
+
+
 def r7_promotions(ctx):
     rule = 'C01.R7-promotion-set'
     facts = ctx.facts
@@ -687,6 +728,7 @@ def run(ctx):
     r2_filter_shape(ctx)
     r3_castle_guards(ctx)
     r4_pawn_geometry(ctx)
+    r4b_pawn_captures(ctx)
     r5_attack_map(ctx)
     r7_promotions(ctx)
     r8_captures(ctx)
